@@ -716,6 +716,8 @@ def run_e(prop, tier, n_st=350, n_pool=350, dfs_budget=500, long_runs=30):
             failures.append(dict(kind='schedule', summary=msg, config=dict(kind='backend'), got_from_impl=msg))
     if prop == 'C05':
         cf, cr = backend_cancellation(ld, r, tier)
+        sf, sr = stacked_error_stop(ld, r, tier)
+        cf, cr = sf + cf, cr + sr
         be_runs += cr
         for msg in cf[:5]:
             failures.append(dict(kind='schedule', summary=msg, config=dict(kind='backend_cancellation'), got_from_impl=msg))
@@ -795,12 +797,21 @@ class BFn:
         raise bexc(e[1])(Tag(x))
 
 
+class GenExitSub(GeneratorExit):
+    pass
+
+
+class KbdSub(BaseException):
+    pass
+
+
 def bexc(name):
     import queue, concurrent.futures, lazy_dataset
     return {'FnFail': FnFail, 'Empty': queue.Empty, 'KeyError': KeyError, 'FilterException': lazy_dataset.FilterException,
             'FnFailBase': FnFailBase, 'CancelledError': concurrent.futures.CancelledError, 'IndexError': IndexError,
             'StopAsyncIteration': StopAsyncIteration, 'NotImplementedError': NotImplementedError, 'AttributeError': AttributeError,
-            'TypeError': TypeError, 'AssertionError': AssertionError, 'ValueError': ValueError}[name]
+            'TypeError': TypeError, 'AssertionError': AssertionError, 'ValueError': ValueError,
+            'GeneratorExit': GeneratorExit, 'GenExitSub': GenExitSub, 'KbdSub': KbdSub}[name]
 
 
 def b_reference(n, table, catch):
@@ -842,7 +853,9 @@ def backend_checks(ld, r, tier, prop):
     backends = ['t', False, 'concurrent_mp', 'dill_mp', 'mp', 'multiprocessing'] if quick else ['t', 'thread', False, 'mp', 'dill_mp', 'multiprocessing', 'concurrent_mp']
     classes = ['FnFail', 'Empty', 'KeyError', 'FilterException', 'FnFailBase', 'CancelledError', 'IndexError', 'StopAsyncIteration',
                # classes the library itself raises and catches internally (items() protocol, len(), keys(), asserts)
-               'NotImplementedError', 'AttributeError', 'TypeError', 'AssertionError', 'ValueError']
+               'NotImplementedError', 'AttributeError', 'TypeError', 'AssertionError', 'ValueError',
+               # what the generator protocol itself uses: raised by USER code it is an error like any other
+               'GeneratorExit', 'GenExitSub', 'KbdSub']
     with warnings.catch_warnings():
         warnings.simplefilter('ignore')
         for be in backends:
@@ -869,7 +882,7 @@ def backend_checks(ld, r, tier, prop):
                         # a hard failure of every class at every position (thread backend) / a sample (process pools)
                         combos = [(c, p) for c in classes for p in range(n)]
                         if not thread:
-                            combos = [cp for cp in combos if cp[0] != 'FnFailBase']      # multiprocessing.Pool workers die on BaseException
+                            combos = [cp for cp in combos if cp[0] not in ('FnFailBase', 'GeneratorExit', 'GenExitSub', 'KbdSub')]      # multiprocessing.Pool workers die on BaseException
                             combos = r.sample(combos, 3 if quick else 8)
                         elif quick:
                             combos = [cp for cp in combos if cp[1] in (0, n - 2, n - 1) or r.random() < 0.3]
@@ -1162,6 +1175,72 @@ def _slow_mark(x, path=None):
         fh.write(f'{x}\n')
     time.sleep(0.25)
     return x
+
+
+class _StackBoom(Exception):
+    pass
+
+
+def stacked_error_stop(ld, r, tier):
+    """C05 for stacked background stages: a parallel map (or a second prefetch) above a prefetching stage; the consumer is stopped by
+    an error raised in the UPPER stage (or stops by close / break).  When control is back in the consumer - already inside its
+    except block, while the exception object is still alive - the threads of BOTH stages have exited and the source is not read further"""
+    import threading, time, warnings
+    fails, runs = [], 0
+    n = 40
+    with warnings.catch_warnings():
+        warnings.simplefilter('ignore')
+        for lower in ('prefetch1', 'prefetch2', 'parmap'):
+            for upper in ('parmap1', 'parmap2', 'prefetch1'):          # (a multi-worker prefetch needs position access to its input: not above a prefetch)
+                for how in ('error', 'close', 'break'):
+                    runs += 1
+                    pulled = []
+
+                    def load(x, pulled=pulled):
+                        pulled.append(x)
+                        return x
+
+                    def boom(x):
+                        if x == 3:
+                            raise _StackBoom(x)
+                        return x
+                    base_threads = set(threading.enumerate())
+                    src = ld.new(list(range(n))).map(load)
+                    low = src.prefetch(1, 4) if lower == 'prefetch1' else src.prefetch(2, 4) if lower == 'prefetch2' else src.map(_ident_e, num_workers=2, buffer_size=4)
+                    fn = boom if how == 'error' else _ident_e
+                    up = low.map(fn, num_workers=1, buffer_size=2) if upper == 'parmap1' else low.map(fn, num_workers=2, buffer_size=2) if upper == 'parmap2' else low.map(fn).prefetch(1, 2)
+                    what = f'{upper} above {lower}, consumer stopped by {how}'
+                    got = []
+                    try:
+                        it = iter(up)
+                        try:
+                            for x in it:
+                                got.append(x)
+                                if how == 'break' and len(got) == 2:
+                                    break
+                                if how == 'close' and len(got) == 2:
+                                    it.close()
+                                    break
+                            if how == 'error':
+                                fails.append(f'{what}: the error of the upper stage never reached the consumer (delivered {got})')
+                                continue
+                        except _StackBoom as e:
+                            # control is back in the consumer: look around while the exception (and its traceback) is still alive
+                            alive = [t.name for t in threading.enumerate() if t not in base_threads and t.is_alive()]
+                            before = len(pulled)
+                            time.sleep(0.15)
+                            if alive or len(pulled) != before:
+                                fails.append(f'{what}: inside the consumer\'s except block the background threads {alive} are still alive / the source was read further ({before} -> {len(pulled)} examples)')
+                            continue
+                        del it
+                        alive = [t.name for t in threading.enumerate() if t not in base_threads and t.is_alive()]
+                        before = len(pulled)
+                        time.sleep(0.15)
+                        if alive or len(pulled) != before:
+                            fails.append(f'{what}: after the stop the background threads {alive} are still alive / the source was read further ({before} -> {len(pulled)} examples)')
+                    except Exception as e:
+                        fails.append(f'{what}: raised {type(e).__name__}: {e}'[:300])
+    return fails, runs
 
 
 def backend_cancellation(ld, r, tier):
